@@ -193,7 +193,9 @@ theorem dataOk_remove (q q' : Q K) (id : Nat) (b : Bool) (hd : DataOk q) (h : re
 /-- **`refit` keeps `DataOk`** (it does not touch the proxies) -/
 theorem dataOk_refit (q : Q K) (cur : Nat → Aabb3 K) (margin : K) (r : Q K × Nat) (hd : DataOk q)
     (h : refit q cur margin = some r) : DataOk r.1 := by
-  have := refitLoop_proxies cur margin _ _ _ _ _ h
+  obtain ⟨r0, h0, rfl⟩ := refit_eq q cur margin r h
+  have := refitLoop_proxies cur margin _ _ _ _ _ h0
   intro p pr hp hne
+  simp only [syncRootAabb_proxies] at hp
   rw [this] at hp
   exact hd p pr hp hne
